@@ -21,7 +21,7 @@ RULE = ("38 facade methods x every command set whose table offers the command x 
         "inspect.signature of the command class; each supplied argument takes 2 non-default values) x caller buffers of kind bytearray / bytes / memoryview window x 2-3 well-formed device responses chosen to "
         "match the request and 8 truncated ones (a length field announcing more than was transferred: ~500 bytes at offsets 0-1, 0-3, 4-7, 2-3, FFh at 4, FFFEh and 10000h at 0; all bytes FFh); plus every method x set x 13 exception types (incl. KeyboardInterrupt, SystemExit, GeneratorExit) raised by the device *after* it took the command (exactly one submission, the same exception object reaches the caller) (VPD page by page code, mode page by page code, PR IN data by service action, disc information by data type, READ CD "
         "sectors by selection bits); READ/WRITE(10,12,16) through the real SCSIDevice / ISCSIDevice and the stand-in bindings with transfers of {1,2,7Fh,80h,7FFFh,8000h,8001h,40000,FFFFh} blocks of 512 bytes (one submission, whole buffers, iSCSI expected transfer length = buffer length); 11 methods (reads and writes) as the first call after a re-plug, plain or with the re-open failing once (EACCES/EMFILE/EBUSY), on a real SCSIDevice: one submission to the node now at the path; two facades over two devices (different sets, block sizes 512 / 4096) used alternately A.m, B.m', A.m for every pair of methods and offering sets: own device, own operation code, own block size, same CDB for A before and after; the 12 script invocations shipped under tools/ and examples/ (inquiry, getlbastatus, mtx status/load/unload against a simulated changer, read16, read_cd, read_disc_information, readcapacity10/16, reportluns, reportpriority) run as a user runs them on both transports: no exception, CDB lengths, printed values agree with the device. after every successful call: decode the returned command again, submit it again, repeat the call on the same facade (same CDB, one submission each, equal result, fresh buffers). Non-trivial = at least one optional argument supplied or a non-SPC command set; distinct = distinct (method, "
-        "set, argument dict, response). Every method x set over a real device of either transport twice, with all clocks of the time module advanced by {0,1,299,301,3600,10^7} s in between: one command each, same CDB, the attached set's operation code. Every method x set x transport called 260 times in a row (thorough: 1100; 66000 for six methods): every call one command, CDB and result of the first call. Second attach to the SAME device object after the node was re-plugged with a unit of another type (SG_IO) or after the caller changed dev.opcodes (both transports) x 20 ordered pairs of sets x every method either offers: one INQUIRY, then the opcode of the set of the device now there (or refusal with nothing sent).")
+        "set, argument dict, response). Every method x set over a real device of either transport twice, with all clocks of the time module advanced by {0,1,299,301,3600,10^7} s in between: one command each, same CDB, the attached set's operation code. Every method x set x transport called 260 times in a row (thorough: 1100; 66000 for six methods): every call one command, CDB and result of the first call. Every method x set through a facade subclass that overrides execute() (delegating, returning nothing): same outcome as the plain facade, override entered once. Second attach to the SAME device object after the node was re-plugged with a unit of another type (SG_IO) or after the caller changed dev.opcodes (both transports) x 20 ordered pairs of sets x every method either offers: one INQUIRY, then the opcode of the set of the device now there (or refusal with nothing sent).")
 ASSUMPTIONS = [
     "the recording device is a plain object with opcodes/execute/close: it notes call count, a copy of the CDB, id() of both buffers and whether cmd.result was already populated, then fills data-in in place",
     "decode *correctness* is C04's subject: here cmd.result must equal the decoder applied separately to a copy of what the device wrote (same keyword arguments), (the evidence counts the cases where that differs from the decode of an untouched zero buffer, i.e. where decoding before executing would be caught)",
@@ -445,6 +445,54 @@ def run_idle(case, obs=None):
     return out
 
 
+def run_subclass_facade(case, obs=None):
+    """a facade class derived from SCSI that overrides execute() the way the release lets it (does its own bookkeeping, delegates to
+    the inherited execute, returns nothing): every method still hands the command to the device exactly once, goes through the
+    override exactly once, and returns the command with its result decoded - the same as the plain facade"""
+    import pyscsi.pyscsi.scsi_enum_command as E
+    from pyscsi.pyscsi.scsi import SCSI
+    from vf.props.c09 import freeze
+    _, method, st, kind = case
+
+    class TracingSCSI(SCSI):
+        trace = []
+
+        def execute(self, cmd, en_raw_sense=False):
+            self.trace.append(bytes(cmd.cdb))
+            if kind == "kw":
+                super().execute(cmd, en_raw_sense=en_raw_sense)
+            else:
+                SCSI.execute(self, cmd, en_raw_sense)
+    outs = []
+    for cls in (SCSI, TracingSCSI):
+        dev = RecDev(getattr(E, st))
+        s = cls(dev, 512)
+        s.trace = []
+        dev.opcodes = getattr(E, st)
+        del dev.calls[:]
+        del s.trace[:]
+        dev.response = response_for(method, dict(F.FACADE[method][2]), 0)
+        try:
+            cmd = F.call(s, method)
+            try:
+                res = freeze(cmd.result)
+            except Exception:   # noqa: BLE001
+                res = None
+            oc = ("ok", type(cmd).__name__, bytes(cmd.cdb), res)
+        except Exception as e:   # noqa: BLE001
+            oc = ("raised", type(e).__name__, str(e)[:80])
+        outs.append((oc, len(dev.calls), len(s.trace)))
+    out = []
+    where = "%s on %s through a facade subclass overriding execute() (%s)" % (method, st, "delegating with super() and keywords" if kind == "kw" else "delegating to SCSI.execute positionally")
+    if outs[1][0] != outs[0][0] or outs[1][1] != outs[0][1]:
+        out.append(("subclass_facade/differs/%s" % method, "%s: %r, %d command(s) at the device; the plain facade: %r, %d" % (where, outs[1][0][:2], outs[1][1], outs[0][0][:2], outs[0][1])))
+    if outs[1][2] != 1:
+        out.append(("subclass_facade/override_calls/%s" % method, "%s: the override was entered %d times" % (where, outs[1][2])))
+    if obs is not None:
+        obs.append((outs[0][0][:2], outs[1][1], outs[1][2]))
+    return out
+
+
 def run_reattach(case, obs=None):
     """a facade is attached to the SAME device object a second time after the device behind it changed (SG_IO: the node was re-plugged
     with a unit of another type; any device object: the caller changed dev.opcodes): the second attach probes again - exactly one
@@ -621,6 +669,8 @@ def run_case(case, obs=None):
         return run_repeat(case, obs)
     if case[0] == "reattach":
         return run_reattach(case, obs)
+    if case[0] == "subclass_facade":
+        return run_subclass_facade(case, obs)
     if case[0] == "tools":
         from vf.props import c13_tools
         return c13_tools.run_tool(*c13_tools.SCRIPTS[case[1]], case[2])[0]
@@ -804,7 +854,7 @@ def partitions(tier):
     return ([[m] for m in F.FACADE] + [["transport", tr, m] for tr in ("sgio", "iscsi") for m in ("read10", "read12", "read16", "write10", "write12", "write16")]
             + [["recovery"]] + [["two", m] for m in F.FACADE] + [["tools"]] + [["idle", tr] for tr in ("sgio", "iscsi")]
             + [["repeat", tr, m] for tr in ("sgio", "iscsi") for m in F.FACADE]
-            + [["reattach", how] for how in ("replug", "sgio", "iscsi")])
+            + [["reattach", how] for how in ("replug", "sgio", "iscsi")] + [["subclass_facade"]])
 
 
 def run_partition(part, tier, seed):
@@ -842,6 +892,24 @@ def run_partition(part, tier, seed):
                     for k, w in v:
                         acc.violation(k, w, case)
                     acc.outcome((repr(case), tuple(obs), tuple(k for k, _ in v)))
+        return acc
+    if part[0] == "subclass_facade":
+        for m in F.FACADE:
+            for st in F.sets_offering(m):
+                for kind in ("kw", "pos"):
+                    case = ["subclass_facade", m, st, kind]
+                    acc.case(case, nontrivial=True, key=repr(case))
+                    obs = []
+                    try:
+                        v = run_case(case, obs)
+                    except Exception:
+                        import traceback
+                        v = [("harness_error", traceback.format_exc()[-600:])]
+                    for k, w in v:
+                        acc.violation(k, w, case)
+                    acc.outcome((repr(case), tuple(obs), tuple(k for k, _ in v)))
+                    acc.transitions += 2
+                    acc.traces += 1
         return acc
     if part[0] == "reattach":
         sets = ("sbc", "ssc", "smc", "mmc", "spc")
